@@ -196,6 +196,17 @@ Lemma measurement_names_refuted :
   str_mem m0 (i_meas st) = true /\ spec_meas sp true = [] /\ i_mseries st m0 = [].
 Proof. vm_compute. repeat split. Qed.
 
+(** 4: a series dropped from the index whose id stays in the series file (another shard has it)
+    is still returned by the measurement and tag-key series iterators from the older file *)
+Definition hist_keep : list op :=
+  [OCreate [(6, (m0, [(k0, v0)]), 0%nat); (14, (m0, [(k0, v1)]), 0%nat)];
+   ODropSeries 6 0%nat; ODropIfNone m0; OSfDelete []].
+Lemma kept_id_refuted :
+  let st := run_hist 1 5 hist_keep in let sp := spec_hist hist_keep in
+  refines_live st sp = false /\
+  i_set st = [14] /\ spec_ms sp m0 = [14] /\ i_mseries st m0 = [6; 14] /\ i_kseries st m0 k0 = [6; 14].
+Proof. vm_compute. repeat split. Qed.
+
 (** non-vacuity of the compaction theorems: four rolled log files that the policy compacts into one level-3 file; the
     state condition holds *)
 Definition hist_nv : list op :=
